@@ -61,8 +61,16 @@ type fsReqHooks struct {
 	*FS
 }
 
+// RespondGate: the next SrvReqRespond call made for a cancelled request parks here (an
+// implementation that is slow there, e.g. because it logs or accounts for the request)
+var RespondGate *vs.Sem
+
 func (h fsReqHooks) SrvReqProcess(r *go9p.SrvReq) { r.Process() }
 func (h fsReqHooks) SrvReqRespond(r *go9p.SrvReq) {
+	if g := RespondGate; g != nil && r.Rc != nil && r.Rc.Type == 0 {
+		RespondGate = nil
+		g.Acquire()
+	}
 	if rc := r.Rc; rc != nil {
 		switch rc.Type {
 		case go9p.Rstat:
@@ -84,6 +92,7 @@ type fsNoConn struct {
 
 func NewSrvH(fs *FS, o SrvOpt) *SrvH {
 	resetPlainGlobals()
+	RespondGate = nil
 	s := &go9p.Srv{Msize: o.Msize, Dotu: o.Dotu, Maxpend: o.Maxpend, Debuglevel: o.Debug}
 	s.Id = "srv"
 	s.Upool = newUsers()
